@@ -215,8 +215,13 @@ impl Ctx {
         }
         let viol = self.viol_total.load(Ordering::Relaxed);
         if self.samples.lock().unwrap().is_empty() && !self.replay_mode {
-            eprintln!("MACHINERY: the check recorded no sample case (evidence would be invalid)");
-            return 3;
+            if viol > 0 {
+                // e.g. a change that makes the exploration vacuous in one dimension: the violations stand
+                self.samples.lock().unwrap().push(json!({"note": "no regular sample was recorded in this run; see the violation replay files", "first_violation_file": self.viol_files.lock().unwrap().first().cloned()}));
+            } else {
+                eprintln!("MACHINERY: the check recorded no sample case (evidence would be invalid)");
+                return 3;
+            }
         }
         let mut cov = Map::new();
         cov.insert("evaluations".into(), json!(self.evals.load(Ordering::Relaxed)));
